@@ -13,13 +13,17 @@
    - the init segment is regenerated exactly when none exists or the segment being published was
      opened by a forced (parameter-change) rotation, and then captures the tracks' current parameters;
      a segment opened by a rotation starts at the rotation's DTS / NTP and carries its force flag.
-   PARTIAL in one respect: "every published segment begins with a random-access unit" is a theorem
-   only in the form "a cut happens only at a random-access unit and the new segment starts at that
-   unit's DTS"; that the unit's bytes are the first sample of the published segment is decided on every
-   run by the correspondence run (trace line 6/7: first sample of each part) and by the oracle that
-   decodes the published segments. *)
+   - every segment of the leading track's stream - evicted, listed or open - begins with a random-access
+     (sync) sample (fMP4 and Low-Latency; c02_segments_start_with_random_access): in every state reachable
+     from Start by successful writes whose video units lie at or after -10 s, the grouped log of the
+     leading stream (one group per real segment) has a sync sample at the head of every non-empty group;
+     the proof goes through "the look-ahead unit is the first sample of a freshly opened segment" and
+     "the first accepted unit of a video track is random access" (the gate the AV1 fix 78859ca restored).
+   Not theorems (tie + oracle): for MPEG-TS, that a segment's first unit is the IDR (the cut theorem
+   gives: a cut happens only at a random-access unit and the unit is written after the cut) and that
+   PAT / PMT open each segment; that the served bytes decode to the model's samples. *)
 From Coq Require Import List ZArith Bool.
-From GoHls Require Import Model.Mux Proofs.MuxStream Proofs.MuxLift Proofs.MuxWindow Proofs.MuxHistory Proofs.MuxSamples Proofs.MuxCut.
+From GoHls Require Import Model.Mux Proofs.MuxStream Proofs.MuxLift Proofs.MuxWindow Proofs.MuxHistory Proofs.MuxSamples Proofs.MuxCut Proofs.MuxLog Proofs.MuxLogStep Proofs.MuxGroups Proofs.MuxRAStart Proofs.MuxRAHist.
 Import ListNotations.
 Local Open Scope Z_scope.
 
@@ -118,3 +122,20 @@ Theorem c02_one_leading_stream_reachable : forall c m0 ops,
              /\ forall j s, nth_error (m_streams m) j = Some s -> st_leading s = true -> j = leading_index m.
 Proof. exact reachable_one_leading. Qed.
 Print Assumptions c02_one_leading_stream_reachable.
+
+(* ---- every segment begins with a random-access unit of the leading track (fMP4 variants) ---- *)
+Theorem c02_segments_start_with_random_access : forall c m0 ops,
+  start c = Ok m0 -> c_variant c <> MPEGTS ->
+  Forall (wf_op (map tk_static (m_tracks m0))) ops -> all_ok m0 ops ->
+  let m := mux_run m0 ops in
+  Forall group_ok (glog m (leading_index m)).
+Proof. exact segments_start_with_random_access. Qed.
+Print Assumptions c02_segments_start_with_random_access.
+
+Theorem c02_segments_start_nonvacuous : exists m0,
+  start ex_cfg = Ok m0 /\ c_variant ex_cfg <> MPEGTS
+  /\ Forall (wf_op (map tk_static (m_tracks m0))) ex_ops /\ all_ok m0 ex_ops
+  /\ map (map (fun s => (s_pay s, s_nonsync s))) (glog (mux_run m0 ex_ops) (leading_index (mux_run m0 ex_ops)))
+     = [[(11, false); (12, true)]].
+Proof. exact ra_example. Qed.
+Print Assumptions c02_segments_start_nonvacuous.
